@@ -111,8 +111,10 @@ class StyleSpy(object):
 
 
 def case_facts(case, atoms, ret):
-    return {"shape": al.shape_code(atoms, ret, case["kwargs"]), "n": len(atoms), "kwargs": case["kwargs"],
-            "summary": case["summary"]}
+    summ = case["summary"]
+    if not isinstance(summ, int):
+        summ = "quote_edges" if summ.startswith("'") else "sweep%d" % len(summ)
+    return {"shape": al.shape_code(atoms, ret, case["kwargs"]), "n": len(atoms), "kwargs": case["kwargs"], "summary": summ}
 
 
 def ctx_facts(atoms, pos, ret, kwargs):
@@ -141,7 +143,9 @@ def compare(base, atoms, ret, case, inp_ir, out_ir, policy):
     cf = dict(base, **case_facts(case, atoms, ret))
     # summary
     sites.append(site(pin["doc"] == pout["doc"], dict(cf, field="summary"), fail="summary", got=core.short(pout["doc"])))
-    if policy.get("summary_exact"):
+    longest = max([len(ln) for ln in (inp_ir.get("doc") or "").splitlines()] or [0])
+    if policy.get("summary_exact") and not (base.get("o.ww", True) and longest > 100):
+        # (a summary line longer than the line width is re-filled by word wrap: only its words are an obligation then)
         # code kinds carry the summary verbatim (line breaks and indentation of a multi-line summary included)
         got = out_ir.get("doc") or ""
         sites.append(site(got == (inp_ir.get("doc") or ""), dict(cf, field="summary_layout"), fail="summary_layout", got=core.short(repr(got), 90)))
@@ -163,8 +167,19 @@ def compare(base, atoms, ret, case, inp_ir, out_ir, policy):
         sites.append(site(rm.type_ok(typ, otyp, default, policy.get("type_extra", ())), dict(f, field="typ"),
                           fail="typ", got=otyp))
         sites.append(site(rm.prose_ok(doc, odoc), dict(f, field="doc"), fail="doc", got=odoc))
+        sites += layout_site(rm.prose_ok(doc, odoc), out_ir["params"][name].get("doc"), dict(f, field="doc_layout"))
+        ds = policy.get("default_sentence")
+        if (ds == "stripped" or (ds == "stripped_if_edd_off" and base.get("o.edd") is False)) and rm.prose_ok(doc, odoc) and not is_kw:
+            # this parser hands the default over as a value and removes its announcement from the prose
+            left = rm.strip_default_sentence(odoc)[1] if odoc else False
+            sites.append(site(not left, dict(f, field="doc_sentence"), fail="default_sentence_left_in_prose", got=core.short(odoc or "", 90)))
         if policy.get("check_default", True):
-            ok = rm.default_ok(default, odef, policy.get("absent_default", ("absent",)),
+            absent_ok = policy.get("absent_default", ("absent",))
+            if typ is not None and not typ.startswith("Optional[") and not is_kw:
+                # None is a value of Optional[...] (and of an undeclared type) only: a declared non-Optional entry
+                # without default may stay without one or take its zero value, it may not acquire None
+                absent_ok = tuple(a for a in absent_ok if a != "none" or policy.get("none_for_any_type"))
+            ok = rm.default_ok(default, odef, absent_ok,
                                typ if typ is not None else policy.get("zero_typ_fallback"))
             if is_kw and not ok:
                 ok = odef in (rm.ABSENT, ("none",))
@@ -184,11 +199,23 @@ def compare(base, atoms, ret, case, inp_ir, out_ir, policy):
         sites.append(site(rm.type_ok(rin[0], rout[0], rin[2], policy.get("ret_type_extra", ())), dict(rf, field="ret.typ"),
                           fail="typ", got=rout[0]))
         sites.append(site(rm.prose_ok(rin[1], rout[1]), dict(rf, field="ret.doc"), fail="doc", got=rout[1]))
+        sites += layout_site(rm.prose_ok(rin[1], rout[1]), ((out_ir.get("returns") or {}).get("return_type") or {}).get("doc"),
+                             dict(rf, field="ret.doc_layout"))
         if policy.get("check_default", True) and policy.get("check_ret_default", True):
             sites.append(site(rm.default_ok(rin[2], rout[2], policy.get("ret_absent_default", ("absent",)), rin[0]),
                               dict(rf, field="ret.default"), fail="default",
                               got=list(rout[2]) if rout[2] != rm.ABSENT else rout[2]))
     return sites
+
+
+def layout_site(words_ok, raw, facts):
+    """The prose alphabets are single-line texts with single blanks: prose that comes back with the right words but
+    with line breaks or runs of blanks inside has been altered (only judged when the words themselves are right)."""
+    if not words_ok or not isinstance(raw, str):
+        return []
+    body = raw.strip()
+    bad = "\n" in body or "  " in body or "\t" in body
+    return [site(not bad, facts, fail="whitespace_inserted", got=core.short(repr(body), 90))]
 
 
 # ----------------------------------------------------------------------------- generic round-trip check
